@@ -64,9 +64,10 @@ def pickS (tol : α) (st : St α) : α × Bool :=
   let m := bisectNow st s0 tol
   (if m then (st.a + st.b) / lit 2 else s0, m)
 
-/-- `if fa*fs < 0: b, fb = s, fs  else: a, fa = s, fs` -/
+/-- `if sign(fa)*sign(fs) < 0: b, fb = s, fs  else: a, fa = s, fs` -/
 def upd (st : St α) (s fs : α) : α × α × α × α :=
-  if st.fa * fs < lit 0 then (st.a, s, st.fa, fs) else (s, st.b, fs, st.fb)
+  -- since fix P34 the signs are compared (`sign(fa) * sign(fs) < 0`): a product of tiny values underflows to zero
+  if signC st.fa * signC fs < 0 then (st.a, s, st.fa, fs) else (s, st.b, fs, st.fb)
 
 /-- `if |fa| < |fb|: a, b = b, a; fa, fb = fb, fa` -/
 def swp (q : α × α × α × α) : α × α × α × α :=
@@ -125,13 +126,13 @@ def brentsroot (f : α → α) (lo hi tol eps inf : α) (maxIter : Nat := 64) : 
 
 The vector code runs every lane with masks; a lane is *active* (`conv = True` in the code's
 inverted naming) while it has not converged.  Differences from the scalar solver that the lane
-model keeps: the bracket test is `fa*fb >= 0` (a zero at an end point makes the lane inactive from
+model keeps: the bracket test is `sign(fa)*sign(fb) >= 0` (a zero at an end point makes the lane inactive from
 the start), a lane is only deactivated by `numiter > 64` (one more pass than the scalar code),
 `s`/`fs` of inactive lanes keep their last values, and
 `true_conv = (|fb| <= tol) | (bracketed & |b - a| < xtol)`. -/
 def lane (f : α → α) (lo hi tol eps : α) (maxIter : Nat := 64) : Result α :=
   let st0 := start f lo hi
-  if lit 0 ≤ st0.fa * st0.fb then
+  if 0 ≤ signC st0.fa * signC st0.fb then
     { root := st0.b, success := decide (absC st0.fb ≤ tolUsed tol eps), bracket := some (st0.a, st0.b), iters := 3, trace := [] }
   else
     -- the vector loop tests `numiter <= 64` after the increment: active while numiter ≤ 64
